@@ -36,6 +36,9 @@ func c07Workload(seed uint64, n int) (sizes []int, events [][]string) {
 		}
 		if i == n/2 {
 			k = 300 // one large bulk: well over a thousand mutations in one apply
+			if n >= 30 {
+				k = 1200 // thorough: more than 1000 hyper-cache tiles to reload when the node comes back
+			}
 		}
 		sizes = append(sizes, k)
 		evs := make([]string, k)
